@@ -23,4 +23,8 @@ def run(rep, tier):
 
 
 def replay(rep, case, body=None):
+    if isinstance(case, dict) and case.get("engine") == "E3":
+        from checks import fuzzutil
+        fuzzutil.replay_input(rep, "C16", case)
+        return
     rsutil.run_rs_part(rep, case.get("tier", "quick"), "C16", required=True)
